@@ -34,6 +34,9 @@ def bbox_size(seg):
     return (rows[-1] - rows[0] + 1) * (cols[-1] - cols[0] + 1)
 
 
+FULLAMP = {}        # amplitude before it was zeroed outside the support (the mask alone must do that)
+
+
 def segmented_plane(rng, N, m, n, k, allow_single):
     for _ in range(200):
         sup = np.array([[rng.random() < 0.75 for _ in range(n)] for _ in range(m)])
@@ -48,8 +51,10 @@ def segmented_plane(rng, N, m, n, k, allow_single):
         single = any(bbox_size(s) == 1 for s in segs) or bbox_size(sup) == 1
         if single and not allow_single:
             continue
-        amp = np.array([[rng.choice((1, 2, 3)) for _ in range(n)] for _ in range(m)]) * sup
+        full = np.array([[rng.choice((1, 2, 3)) for _ in range(n)] for _ in range(m)])
+        amp = full * sup
         opd = np.array([[rng.randrange(N) for _ in range(n)] for _ in range(m)])
+        FULLAMP[id(amp)] = full
         return amp, opd, segs, single
     raise RuntimeError('no aperture')
 
@@ -85,7 +90,7 @@ def gen_scenario(rng, tier, sid):
         a2, o2, s2, single2 = segmented_plane(rng, N, m, n, rng.choice((1, 2)), False)
         planes.append((a2, o2, s2))
     variants = {}
-    for var in ('3d', '2d', 'whole'):
+    for var in ('3d', '2d', '2d-fullamp', 'whole'):
         steps = []
         for i, (a, o, s) in enumerate(planes):
             flat = (s.sum(axis=0) > 0).astype(int)
@@ -94,6 +99,8 @@ def gen_scenario(rng, tier, sid):
                 st = ox.plane('Pupil', amp=a, opd=o, mask=s if len(s) > 1 else s[0], **kw)
             elif var == '2d':
                 st = ox.plane('Pupil', amp=a, opd=o, mask=flat, **kw)
+            elif var == '2d-fullamp':
+                st = ox.plane('Pupil', amp=FULLAMP.get(id(a), a), opd=o, mask=flat, **kw)
             else:
                 st = ox.plane('Pupil', amp=a * flat, opd=o, mask=np.ones_like(flat), **kw)
             steps.append(st)
@@ -155,6 +162,7 @@ def run(ctx):
     for c in cases:
         check(ctx, lentil, c, spec[c['id']])
         ctx.case((c['sid'], c['var']), nontrivial=c['nseg'] > 1)
+    ox.binding_selftest(ctx, lentil, cases[0], spec[cases[0]['id']])
     ctx.traces += len(cases)
     ctx.extra.update({'scenarios': nsc, 'with_overlapping_bounding_boxes': sum(1 for c in cases if c['overlapping_bboxes'] and c['var'] == '3d'),
                       'two_plane_chains': sum(1 for c in cases if c['chain'] == 2 and c['var'] == '3d'),
